@@ -255,6 +255,9 @@ def run(case):
             if not case.get('sort', False):
                 # (the wrap itself may round differently in compiled code, which subtracts a float64 box: a few ulp)
                 dp = np.abs(np.asarray(p, dtype=np.float64) - pexp.astype(np.float64))
+                if case['wrap']:
+                    # ... and a position within rounding of a box face may legitimately end on either side of it
+                    dp = np.minimum(dp, np.abs(dp - box))
                 if (dp.size and dp.max() > 8 * float(np.finfo(ft).eps) * box) or (w is not None and np.asarray(w).tobytes() != weights.tobytes()):
                     modified.append(True)
             return r
